@@ -203,6 +203,16 @@ class Effects:
             else:
                 pts.append((rp, node))
 
+        # ---- attribute of a caught exception object that its class does not have
+        for h in own_nodes(f.node):
+            if isinstance(h, ast.ExceptHandler) and h.name and h.type is not None:
+                classes = _handler_names(h)
+                for x in ast.walk(ast.Module(body=h.body, type_ignores=[])):
+                    if isinstance(x, ast.Attribute) and isinstance(x.value, ast.Name) and x.value.id == h.name \
+                            and isinstance(x.ctx, ast.Load) and not x.attr.startswith("__"):
+                        missing = [c for c in classes if not self._exc_has_attr(c, x.attr)]
+                        if missing:
+                            add(x, "AttributeError", "handler-attr")
         for n in own_nodes(f.node):
             # ---- explicit raise
             if isinstance(n, ast.Raise):
@@ -262,6 +272,34 @@ class Effects:
                     for exc in EXTERNAL_RAISES[ext]:
                         add(n, exc, "call:" + ext, ok)
         return pts, dis
+
+    def _exc_has_attr(self, cname: str, attr: str) -> bool:
+        if attr in ("args", "with_traceback", "add_note"):
+            return True
+        for c in self.p.classes.values():
+            if c.name == cname:
+                for k in self.p.mro(c):
+                    if attr in k.methods or attr in k.attrs:
+                        return True
+                    for m in k.methods.values():
+                        for n in own_nodes(m.node):
+                            if isinstance(n, ast.Attribute) and isinstance(n.ctx, ast.Store) and n.attr == attr \
+                                    and isinstance(n.value, ast.Name) and n.value.id == "self":
+                                return True
+                    for b in k.base_names:
+                        o = getattr(builtins, b.split(".")[-1], None)
+                        if isinstance(o, type) and hasattr(o, attr):
+                            return True
+                return False
+        o = getattr(builtins, cname, None)
+        if isinstance(o, type):
+            if hasattr(o, attr):
+                return True
+            return attr in {"OSError": ("errno", "strerror", "filename", "filename2"),
+                            "UnicodeDecodeError": ("encoding", "object", "start", "end", "reason")}.get(cname, ())
+        if cname == "JSONDecodeError":
+            return attr in ("msg", "doc", "pos", "lineno", "colno")
+        return True  # unknown class: no claim
 
     # ---- helpers for guards ------------------------------------------------------------------
     def _is_annotation(self, f: FunctionInfo, sub: ast.Subscript) -> bool:
